@@ -772,7 +772,8 @@ function constSortKey(value: Const): string {
 }
 
 function compareConst(a: Const, b: Const): number {
-  return constSortKey(a).localeCompare(constSortKey(b));
+  // a fixed collation: the order (and with it hash256) must not follow the locale of the process
+  return constSortKey(a).localeCompare(constSortKey(b), "en");
 }
 
 function hash256Const(ctx: Hash256Context, value: Const): void {
